@@ -779,6 +779,10 @@ def satisfies(f, v):
                 return False
             if f.get("max_len") is not None and len(v) > f["max_len"]:
                 return False
+            if len(v) > 15 and re.fullmatch(r"[A-Za-z0-9][A-Za-z0-9.\-]+", v, re.ASCII) is None:
+                # longer than a NetBIOS name (15 characters): a DNS name — ASCII letters, digits, hyphens and dots, nothing else
+                # (K, ſ, ı, İ fold into ASCII letters under Unicode case-insensitive matching; they are not host name characters)
+                return False
             parts = v.split(".")
             if f.get("allow_ipv4", True) is False and len(parts) == 4 and all(p.isascii() and p.isdigit() and (p == "0" or not p.startswith("0")) and int(p) <= 255 for p in parts):
                 return False
